@@ -1,5 +1,512 @@
 (* C14 — generic lemmas about Model/Settings.v (no generated content). *)
-From Coq Require Import ZArith QArith List Bool String Ascii.
+From Coq Require Import ZArith QArith List Bool String Ascii Lia.
 From V Require Import Model.Settings.
 Import ListNotations.
 Open Scope string_scope.
+
+(* ================================================================== strings *)
+Lemma is_ws_lower : forall c, is_ws (lower_ascii c) = is_ws c.
+Proof. intros [[] [] [] [] [] [] [] []]; reflexivity. Qed.
+Lemma lower_ascii_idem : forall c, lower_ascii (lower_ascii c) = lower_ascii c.
+Proof. intros [[] [] [] [] [] [] [] []]; reflexivity. Qed.
+
+Lemma lower_idem : forall s, lower (lower s) = lower s.
+Proof. induction s as [|c r IH]; cbn; [reflexivity|]. now rewrite lower_ascii_idem, IH. Qed.
+
+Lemma lower_lstrip : forall s, lower (lstrip s) = lstrip (lower s).
+Proof.
+  induction s as [|c r IH]; cbn; [reflexivity|].
+  rewrite is_ws_lower. destruct (is_ws c); [exact IH|reflexivity].
+Qed.
+
+Lemma lower_rstrip : forall s, lower (rstrip s) = rstrip (lower s).
+Proof.
+  induction s as [|c r IH]; cbn [rstrip lower]; [reflexivity|].
+  rewrite <- IH. destruct (rstrip r) as [|d r'] eqn:E; cbn [lower].
+  - rewrite is_ws_lower. destruct (is_ws c); reflexivity.
+  - reflexivity.
+Qed.
+
+Lemma lower_strip : forall s, lower (strip s) = strip (lower s).
+Proof. intros s. unfold strip. now rewrite lower_rstrip, lower_lstrip. Qed.
+
+Definition head_not_ws (s : string) : Prop :=
+  match s with EmptyString => True | String c _ => is_ws c = false end.
+
+Lemma lstrip_head : forall s, head_not_ws (lstrip s).
+Proof.
+  induction s as [|c r IH]; cbn; [exact I|].
+  destruct (is_ws c) eqn:E; [exact IH|exact E].
+Qed.
+Lemma lstrip_fix : forall s, head_not_ws s -> lstrip s = s.
+Proof. intros [|c r] H; cbn in *; [reflexivity|]. now rewrite H. Qed.
+Lemma rstrip_head : forall s, head_not_ws s -> head_not_ws (rstrip s).
+Proof.
+  intros [|c r] H; cbn in *; [exact I|].
+  destruct (rstrip r); [rewrite H|]; exact H.
+Qed.
+Lemma rstrip_idem : forall s, rstrip (rstrip s) = rstrip s.
+Proof.
+  induction s as [|c r IH]; cbn [rstrip]; [reflexivity|].
+  destruct (rstrip r) as [|d r'] eqn:E.
+  - destruct (is_ws c) eqn:W; cbn [rstrip]; [reflexivity|]. now rewrite W.
+  - assert (X : forall c0 x, rstrip (String c0 x) =
+                  match rstrip x with
+                  | EmptyString => if is_ws c0 then EmptyString else String c0 EmptyString
+                  | String a b => String c0 (String a b)
+                  end) by reflexivity.
+    rewrite X, IH. reflexivity.
+Qed.
+
+Lemma strip_idem : forall s, strip (strip s) = strip s.
+Proof.
+  intros s. unfold strip.
+  rewrite (lstrip_fix (rstrip (lstrip s))); [apply rstrip_idem|].
+  apply rstrip_head, lstrip_head.
+Qed.
+
+Lemma norm_str_idem : forall s, norm_str (norm_str s) = norm_str s.
+Proof. intros s. unfold norm_str. now rewrite lower_strip, lower_idem, strip_idem. Qed.
+
+Arguments norm_str : simpl never.
+
+(* ================================================================== induction principles (nested inductives) *)
+Section jv_ind2.
+  Variable P : jv -> Prop.
+  Hypothesis HNull : P JNull.
+  Hypothesis HBool : forall b, P (JBool b).
+  Hypothesis HNum : forall q, P (JNum q).
+  Hypothesis HStr : forall s, P (JStr s).
+  Hypothesis HList : forall l, Forall P l -> P (JList l).
+  Hypothesis HObj : forall kvs, Forall (fun kv => P (snd kv)) kvs -> P (JObj kvs).
+  Hypothesis HInst : forall c kvs, Forall (fun kv => P (snd kv)) kvs -> P (JInst c kvs).
+  Fixpoint jv_ind2 (v : jv) : P v :=
+    match v with
+    | JNull => HNull
+    | JBool b => HBool b
+    | JNum q => HNum q
+    | JStr s => HStr s
+    | JList l => HList l ((fix go (l : list jv) : Forall P l :=
+                             match l with [] => Forall_nil _ | x :: r => Forall_cons x (jv_ind2 x) (go r) end) l)
+    | JObj kvs => HObj kvs ((fix go (l : list (string * jv)) : Forall (fun kv => P (snd kv)) l :=
+                               match l with [] => Forall_nil _ | x :: r => Forall_cons x (jv_ind2 (snd x)) (go r) end) kvs)
+    | JInst c kvs => HInst c kvs ((fix go (l : list (string * jv)) : Forall (fun kv => P (snd kv)) l :=
+                               match l with [] => Forall_nil _ | x :: r => Forall_cons x (jv_ind2 (snd x)) (go r) end) kvs)
+    end.
+End jv_ind2.
+
+Section stree_ind2.
+  Variable P : stree -> Prop.
+  Hypothesis HL : forall l, P (Leaf l).
+  Hypothesis HN : forall n d c o v ch, Forall P ch -> P (Node n d c o v ch).
+  Fixpoint stree_ind2 (t : stree) : P t :=
+    match t with
+    | Leaf l => HL l
+    | Node n d c o v ch =>
+        HN n d c o v ch ((fix go (l : list stree) : Forall P l :=
+                            match l with [] => Forall_nil _ | x :: r => Forall_cons x (stree_ind2 x) (go r) end) ch)
+    end.
+End stree_ind2.
+
+(* ================================================================== normalisation *)
+Lemma map_ext_Forall : forall {A B} (f g : A -> B) l, Forall (fun x => f x = g x) l -> map f l = map g l.
+Proof. induction 1; cbn; congruence. Qed.
+
+Lemma normalise_idempotent_l : forall v, normalise (normalise v) = normalise v.
+Proof.
+  induction v using jv_ind2; cbn; try reflexivity.
+  - now rewrite norm_str_idem.
+  - f_equal. rewrite map_map. apply map_ext_Forall.
+    eapply Forall_impl; [|exact H]. intros [k x] Hx; cbn [fst snd] in *. now rewrite norm_str_idem, Hx.
+Qed.
+
+Lemma normalise_kvs_idempotent_l : forall kvs, normalise_kvs (normalise_kvs kvs) = normalise_kvs kvs.
+Proof.
+  intros kvs. unfold normalise_kvs. rewrite map_map. apply map_ext. intros [k x]; cbn [fst snd].
+  now rewrite norm_str_idem, normalise_idempotent_l.
+Qed.
+
+Lemma norm_doc_idempotent_l : forall v, norm_doc (norm_doc v) = norm_doc v.
+Proof.
+  induction v using jv_ind2; cbn; try reflexivity.
+  f_equal. rewrite map_map. apply map_ext_Forall.
+  eapply Forall_impl; [|exact H]. intros [k x] Hx; cbn [fst snd] in *. now rewrite norm_str_idem, Hx.
+Qed.
+
+(* value normalisation absorbs key normalisation *)
+Lemma normalise_norm_doc : forall v, normalise (norm_doc v) = normalise v.
+Proof.
+  induction v using jv_ind2; cbn; try reflexivity.
+  f_equal. rewrite map_map. apply map_ext_Forall.
+  eapply Forall_impl; [|exact H]. intros [k x] Hx; cbn [fst snd] in *. now rewrite norm_str_idem, Hx.
+Qed.
+
+(* ------------------------------------------------------------------ two documents that agree after normalisation *)
+Definition vrel (a b : jv) : Prop := normalise a = normalise b.
+Definition krel (d1 d2 : list (string * jv)) : Prop :=
+  Forall2 (fun x y => fst x = fst y /\ vrel (snd x) (snd y)) d1 d2.
+
+Lemma krel_lookup : forall k d1 d2, krel d1 d2 ->
+  match lookup k d1, lookup k d2 with
+  | Some a, Some b => vrel a b
+  | None, None => True
+  | _, _ => False
+  end.
+Proof.
+  intros k d1 d2 H. induction H as [|[k1 a] [k2 b] r1 r2 [Hk Hv] _ IH]; cbn; [exact I|].
+  cbn in Hk, Hv. subst k2.
+  destruct (lookup k r1), (lookup k r2); try contradiction; [exact IH|].
+  destruct (String.eqb k k1); [exact Hv|exact I].
+Qed.
+
+Lemma vrel_pre_coerce : forall ty a b, vrel a b -> coerce ty (pre a) = coerce ty (pre b).
+Proof.
+  intros ty a b H. unfold vrel in H.
+  destruct a, b; cbn in H; try discriminate; try (inversion H; subst; reflexivity).
+  (* JStr / JStr *) inversion H as [H1]. cbn [pre]. now rewrite H1.
+Qed.
+
+Lemma vrel_norm_kvs : forall x y,
+  map (fun kv => (norm_str (fst kv), normalise (snd kv))) x = map (fun kv => (norm_str (fst kv), normalise (snd kv))) y ->
+  krel (norm_kvs x) (norm_kvs y).
+Proof.
+  induction x as [|[k a] x IH]; intros [|[k' b] y] H; cbn [map fst snd] in H; try discriminate; [constructor|].
+  inversion H as [[Hk Hv Hr]]. unfold norm_kvs. cbn [map fst snd]. constructor; [|apply IH; exact Hr].
+  cbn [fst snd]. split; [exact Hk|]. unfold vrel. now rewrite !normalise_norm_doc.
+Qed.
+
+Lemma all_some_ext_Forall : forall {A B} (f g : A -> option B) l,
+  Forall (fun x => f x = g x) l -> all_some f l = all_some g l.
+Proof. induction 1 as [|x l Hx _ IH]; cbn; [reflexivity|]. now rewrite Hx, IH. Qed.
+
+Lemma vfield_krel : forall reg t d1 d2, krel d1 d2 -> vfield reg t d1 = vfield reg t d2.
+Proof.
+  intros reg t. induction t as [l|n d c o v ch IH] using stree_ind2; intros d1 d2 H.
+  - cbn. unfold validate_leaf. pose proof (krel_lookup (lname l) d1 d2 H) as L.
+    destruct (lookup (lname l) d1) as [a|], (lookup (lname l) d2) as [b|]; try contradiction; [|reflexivity].
+    now rewrite (vrel_pre_coerce (lty l) a b L).
+  - cbn [vfield]. pose proof (krel_lookup n d1 d2 H) as L.
+    assert (B : forall s1 s2, krel s1 s2 ->
+                all_some (fun c0 => named c0 (vfield reg c0 s1)) ch = all_some (fun c0 => named c0 (vfield reg c0 s2)) ch).
+    { intros s1 s2 Hs. apply all_some_ext_Forall. eapply Forall_impl; [|exact IH].
+      intros c0 Hc. cbn. now rewrite (Hc s1 s2 Hs). }
+    destruct (lookup n d1) as [a|], (lookup n d2) as [b|]; try contradiction; [|reflexivity].
+    unfold vrel in L.
+    destruct a, b; cbn in L; try discriminate; try reflexivity; try (inversion L; subst; reflexivity).
+    inversion L as [L1]. now rewrite (B _ _ (vrel_norm_kvs _ _ L1)).
+Qed.
+
+Lemma krel_top : forall kvs, krel (norm_kvs (normalise_kvs kvs)) (norm_kvs kvs).
+Proof.
+  induction kvs as [|[k a] r IH]; cbn; [constructor|]. constructor; [|exact IH].
+  cbn. split; [apply norm_str_idem|]. unfold vrel. now rewrite !normalise_norm_doc, normalise_idempotent_l.
+Qed.
+
+(* key case / whitespace and the case / whitespace of string values never change the outcome *)
+Lemma case_whitespace_irrelevant_l : forall reg t kvs, vtop reg t (normalise_kvs kvs) = vtop reg t kvs.
+Proof.
+  intros reg [l|n d c o v ch] kvs; cbn [vtop]; [reflexivity|].
+  unfold vfields.
+  rewrite (all_some_ext_Forall (fun c0 => named c0 (vfield reg c0 (norm_kvs (normalise_kvs kvs))))
+                               (fun c0 => named c0 (vfield reg c0 (norm_kvs kvs))) ch); [reflexivity|].
+  apply Forall_forall. intros c0 _. now rewrite (vfield_krel reg c0 _ _ (krel_top kvs)).
+Qed.
+
+(* ================================================================== the lock *)
+(* fields built from the declared children by validation of a document without object input *)
+Definition built (reg : registry) (ch : list stree) (sub : list (string * jv)) (f : list (string * sval)) : Prop :=
+  all_some (fun c => named c (vfield reg c sub)) ch = Some f /\ no_inst_kvs sub = true.
+
+Lemma no_inst_lookup : forall k kvs v, no_inst_kvs kvs = true -> lookup k kvs = Some v -> no_inst v = true.
+Proof.
+  induction kvs as [|[k' x] r IH]; intros v H L; cbn in *; [discriminate|].
+  apply andb_prop in H as [Hx Hr]. destruct (lookup k r) eqn:E.
+  - inversion L; subst. now apply IH.
+  - destruct (String.eqb k k'); inversion L; subst. exact Hx.
+Qed.
+
+Lemma no_inst_norm_doc : forall v, no_inst v = true -> no_inst (norm_doc v) = true.
+Proof.
+  induction v using jv_ind2; cbn; intros Hn; try reflexivity; try discriminate.
+  rewrite forallb_forall in *. intros [k x] Hin. apply in_map_iff in Hin as [[k0 x0] [E Hin]].
+  cbn in E. inversion E; subst. cbn. rewrite Forall_forall in H. apply (H _ Hin). exact (Hn _ Hin).
+Qed.
+Lemma no_inst_norm_kvs : forall kvs, no_inst_kvs kvs = true -> no_inst_kvs (norm_kvs kvs) = true.
+Proof.
+  intros kvs H. unfold no_inst_kvs, norm_kvs in *. rewrite forallb_forall in *.
+  intros [k x] Hin. apply in_map_iff in Hin as [[k0 x0] [E Hin]]. cbn in E. inversion E; subst. cbn.
+  apply no_inst_norm_doc. exact (H _ Hin).
+Qed.
+
+(* the settled entry of the first child called k *)
+Lemma built_find : forall reg ch sub f k c,
+  all_some (fun c => named c (vfield reg c sub)) ch = Some f -> find_tree k ch = Some c ->
+  exists s, vfield reg c sub = Some s /\ getf k f = Some s /\ In (k, s) f /\ tname c = k.
+Proof.
+  induction ch as [|c0 ch IH]; intros sub f k c H F; cbn in *; [discriminate|].
+  unfold named in H at 1. destruct (vfield reg c0 sub) as [s0|] eqn:V; cbn in H; [|discriminate].
+  destruct (all_some (fun c1 => named c1 (vfield reg c1 sub)) ch) as [f'|] eqn:A; [|discriminate].
+  inversion H; subst f; clear H. cbn.
+  destruct (String.eqb k (tname c0)) eqn:E.
+  - inversion F; subst c. apply String.eqb_eq in E. subst k. exists s0. repeat split; auto.
+  - destruct (IH sub f' k c A F) as (s & Hv & Hg & Hi & Hn). exists s. repeat split; auto.
+Qed.
+
+Lemma vfield_node_no_inst : forall reg n d c o v ch sub gov f,
+  no_inst_kvs sub = true ->
+  vfield reg (Node n d c o v ch) sub = Some (SObj gov f) ->
+  gov = ch /\ exists sub', built reg ch sub' f.
+Proof.
+  intros reg n d c o v ch sub gov f Hn H. cbn [vfield] in H.
+  destruct (lookup n sub) as [x|] eqn:L.
+  - pose proof (no_inst_lookup _ _ _ Hn L) as Hx.
+    destruct x; try discriminate.
+    + destruct o; discriminate.
+    + destruct (all_some (fun c0 => named c0 (vfield reg c0 (norm_kvs kvs))) ch) as [f'|] eqn:A; [|discriminate].
+      destruct (first_fail v ch f'); [discriminate|]. inversion H; subst. split; [reflexivity|].
+      exists (norm_kvs kvs). split; [exact A|]. apply no_inst_norm_kvs. exact Hx.
+  - destruct (all_some (fun c0 => named c0 (vfield reg c0 [])) ch) as [f'|] eqn:A; [|discriminate].
+    destruct (first_fail v ch f'); [discriminate|]. inversion H; subst. split; [reflexivity|].
+    exists []. split; [exact A|reflexivity].
+Qed.
+
+Lemma check_dev_entry : forall gov f k s, check_dev (SObj gov f) = true -> In (k, s) f ->
+  match s with
+  | SObj _ _ => check_dev s = true
+  | SLeaf x => match find_tree k gov with
+               | Some (Leaf l) => negb (ldev l && negb (jv_eqb x (ldefault l))) = true
+               | Some (Node _ dev _ _ _ _) => negb dev = true
+               | None => True
+               end
+  end.
+Proof.
+  intros gov f k s H Hin. cbn [check_dev] in H. rewrite forallb_forall in H.
+  specialize (H _ Hin). cbn in H. destruct s; [|exact H].
+  destruct (find_tree k gov) as [[l|]|]; auto.
+Qed.
+
+(* THE LOCK, for documents without object input: if the developer check passes, every developer leaf of the
+   DECLARED tree, at any depth, holds its declared default *)
+Lemma check_dev_sound : forall reg path ch sub f l v,
+  built reg ch sub f -> check_dev (SObj ch f) = true ->
+  leaf_at ch path = Some l -> ldev l = true -> value_at (SObj ch f) path = Some v ->
+  jv_eqb v (ldefault l) = true.
+Proof.
+  intros reg path. induction path as [|k rest IH]; intros ch sub f l v [B Hn] C L D V; [discriminate|].
+  cbn [leaf_at] in L. cbn [value_at] in V.
+  destruct (find_tree k ch) as [c|] eqn:F; [|discriminate].
+  destruct (built_find reg ch sub f k c B F) as (s & Hv & Hg & Hi & Hname).
+  rewrite Hg in V.
+  pose proof (check_dev_entry ch f k s C Hi) as E.
+  destruct c as [l0|n d c o vs ch'].
+  - destruct rest; [|discriminate]. inversion L; subst l0. cbn in Hv.
+    destruct (validate_leaf l sub); [|discriminate]. inversion Hv; subst s. cbn in V. inversion V; subst.
+    rewrite F, D in E. cbn in E. now apply negb_true_iff, negb_false_iff in E.
+  - destruct rest as [|k2 rest2]; [discriminate|].
+    destruct s as [x|gov f'].
+    + cbn in V. discriminate.
+    + destruct (vfield_node_no_inst reg n d c o vs ch' sub gov f' Hn Hv) as [-> [sub' B']].
+      exact (IH ch' sub' f' l v B' E L D V).
+Qed.
+
+Lemma first_fail_devmode : forall vs gov f, In VDevMode vs -> first_fail vs gov f = None -> v_devmode gov f = None.
+Proof.
+  induction vs as [|v r IH]; intros gov f Hin H; [contradiction|]. cbn in H.
+  destruct (run_vid v gov f) eqn:R; [discriminate|].
+  destruct Hin as [->|Hin]; [exact R|]. now apply IH.
+Qed.
+
+Lemma dev_lock_l : forall reg n d c o vs ch kvs gov f,
+  no_inst_kvs kvs = true -> In VDevMode vs ->
+  vtop reg (Node n d c o vs ch) kvs = Accept (SObj gov f) ->
+  get_leaf "developer_mode" f = Some (JBool false) ->
+  forall path l v, leaf_at ch path = Some l -> ldev l = true -> value_at (SObj gov f) path = Some v ->
+  jv_eqb v (ldefault l) = true.
+Proof.
+  intros reg n d c o vs ch kvs gov f Hn Hin H Hdm path l v L D V.
+  cbn [vtop] in H. unfold vfields in H.
+  destruct (all_some (fun c0 => named c0 (vfield reg c0 (norm_kvs kvs))) ch) as [f'|] eqn:A; [|discriminate].
+  destruct (first_fail vs ch f') eqn:FF; [discriminate|]. inversion H; subst gov f'.
+  pose proof (first_fail_devmode vs ch f Hin FF) as DM. unfold v_devmode in DM. rewrite Hdm in DM.
+  destruct (check_dev (SObj ch f)) eqn:C; [|discriminate].
+  eapply check_dev_sound; eauto. split; [exact A|]. now apply no_inst_norm_kvs.
+Qed.
+
+
+(* ================================================================== the lock is exact *)
+(* only the developer-mode validator answers RDeveloper *)
+Lemma run_vid_developer : forall v gov f, run_vid v gov f = Some RDeveloper ->
+  v = VDevMode /\ check_dev (SObj gov f) = false.
+Proof.
+  intros v gov f H. destruct v; cbn [run_vid] in H.
+  - split; [reflexivity|]. unfold v_devmode in H.
+    destruct (get_leaf "developer_mode" f) as [[| [] | | | | |]|]; try discriminate.
+    destruct (check_dev (SObj gov f)); [discriminate|reflexivity].
+  - exfalso. unfold v_alpha_final in H.
+    repeat match type of H with context [match ?x with _ => _ end] => destruct x end; discriminate.
+  - exfalso. unfold v_final_bounds in H.
+    repeat match type of H with context [match ?x with _ => _ end] => destruct x end; discriminate.
+  - exfalso. unfold v_init_step in H.
+    repeat match type of H with context [match ?x with _ => _ end] => destruct x end; discriminate.
+  - exfalso. unfold v_reduce_std in H.
+    repeat match type of H with context [match ?x with _ => _ end] => destruct x end; discriminate.
+  - exfalso. unfold v_options in H.
+    repeat match type of H with context [match ?x with _ => _ end] => destruct x end; discriminate.
+  - exfalso. unfold v_temp_bins in H.
+    repeat match type of H with context [match ?x with _ => _ end] => destruct x end; discriminate.
+  - exfalso. unfold v_edge_bins in H.
+    repeat match type of H with context [match ?x with _ => _ end] => destruct x end; discriminate.
+  - exfalso. unfold v_wavelet in H.
+    repeat match type of H with context [match ?x with _ => _ end] => destruct x end; discriminate.
+  - exfalso. unfold v_adaptive in H.
+    repeat match type of H with context [match ?x with _ => _ end] => destruct x end; discriminate.
+  - discriminate.
+Qed.
+
+Lemma first_fail_developer : forall vs gov f, first_fail vs gov f = Some RDeveloper -> check_dev (SObj gov f) = false.
+Proof.
+  induction vs as [|v r IH]; intros gov f H; cbn in H; [discriminate|].
+  destruct (run_vid v gov f) as [x|] eqn:R; [|now apply IH].
+  inversion H; subst x. now destruct (run_vid_developer v gov f R).
+Qed.
+
+Lemma mem_false_neq : forall x l y, mem x l = false -> In y l -> String.eqb x y = false.
+Proof.
+  induction l as [|z r IH]; intros y H Hin; [contradiction|]. cbn in H. apply orb_false_iff in H as [H1 H2].
+  destruct Hin as [->|Hin]; [exact H1|now apply IH].
+Qed.
+
+Lemma find_tree_nodup : forall ch c, nodupb (map tname ch) = true -> In c ch -> find_tree (tname c) ch = Some c.
+Proof.
+  induction ch as [|c0 r IH]; intros c H Hin; [contradiction|]. cbn in H. apply andb_prop in H as [H1 H2].
+  cbn. destruct Hin as [->|Hin]; [now rewrite String.eqb_refl|].
+  assert (E : String.eqb (tname c) (tname c0) = false).
+  { rewrite String.eqb_sym. apply negb_true_iff in H1. apply (mem_false_neq _ _ _ H1). now apply in_map. }
+  rewrite E. now apply IH.
+Qed.
+
+Lemma built_names : forall reg ch sub f,
+  all_some (fun c => named c (vfield reg c sub)) ch = Some f -> map fst f = map tname ch.
+Proof.
+  induction ch as [|c0 r IH]; intros sub f H; cbn in H; [inversion H; reflexivity|].
+  unfold named in H at 1. destruct (vfield reg c0 sub) as [s0|]; cbn in H; [|discriminate].
+  destruct (all_some (fun c => named c (vfield reg c sub)) r) as [f'|] eqn:A; [|discriminate].
+  inversion H; subst f. cbn. f_equal. exact (IH sub f' A).
+Qed.
+
+Lemma built_in : forall reg ch sub f k s,
+  all_some (fun c => named c (vfield reg c sub)) ch = Some f -> In (k, s) f ->
+  exists c, In c ch /\ tname c = k /\ vfield reg c sub = Some s.
+Proof.
+  induction ch as [|c0 r IH]; intros sub f k s H Hin; cbn in H; [inversion H; subst; contradiction|].
+  unfold named in H at 1. destruct (vfield reg c0 sub) as [s0|] eqn:V; cbn in H; [|discriminate].
+  destruct (all_some (fun c => named c (vfield reg c sub)) r) as [f'|] eqn:A; [|discriminate].
+  inversion H; subst f. destruct Hin as [E|Hin].
+  - inversion E; subst. exists c0. repeat split; auto. now left.
+  - destruct (IH sub f' k s A Hin) as (c & I1 & I2 & I3). exists c. repeat split; auto. now right.
+Qed.
+
+Lemma forallb_false_ex : forall {A} (p : A -> bool) l, forallb p l = false -> exists x, In x l /\ p x = false.
+Proof.
+  induction l as [|x r IH]; cbn; intros H; [discriminate|]. apply andb_false_iff in H as [H|H].
+  - exists x. split; [now left|exact H].
+  - destruct (IH H) as (y & I1 & I2). exists y. split; [now right|exact I2].
+Qed.
+
+Lemma forallb_In : forall {A} (p : A -> bool) l x, forallb p l = true -> In x l -> p x = true.
+Proof. intros A p l x H Hin. exact (proj1 (forallb_forall p l) H x Hin). Qed.
+
+Lemma vfield_node_not_leaf : forall reg n d c vs ch sub x,
+  vfield reg (Node n d c false vs ch) sub = Some (SLeaf x) -> False.
+Proof.
+  intros reg n d c vs ch sub x H. cbn [vfield] in H.
+  destruct (lookup n sub) as [v|].
+  - destruct v; try discriminate.
+    + destruct (all_some (fun c0 => named c0 (vfield reg c0 (norm_kvs kvs))) ch); [|discriminate].
+      destruct (first_fail vs ch l); discriminate.
+    + unfold inst in H. destruct (lookup_reg cls reg) as [[anc t]|]; [|discriminate].
+      destruct (mem c anc); [|discriminate]. unfold build_flat in H. destruct t; [discriminate|].
+      destruct (all_some (fun c0 => vleaf_field c0 (norm_kvs kvs)) children); [|discriminate].
+      destruct (first_fail vals children l); discriminate.
+  - destruct (all_some (fun c0 => named c0 (vfield reg c0 [])) ch); [|discriminate].
+    destruct (first_fail vs ch l); discriminate.
+Qed.
+
+(* if the developer check fails on an object built from a well-formed tree by a document without object input,
+   some developer leaf of the declared tree, at some depth, does not hold its default *)
+Definition exact_at (reg : registry) (t : stree) : Prop :=
+  forall sub gov f, no_inst_kvs sub = true -> wf_tree t = true -> vfield reg t sub = Some (SObj gov f) ->
+    check_dev (SObj gov f) = false ->
+    exists path l v, leaf_at gov path = Some l /\ ldev l = true /\ value_at (SObj gov f) path = Some v /\
+                     jv_eqb v (ldefault l) = false.
+
+Lemma check_dev_false_children : forall reg ch sub f,
+  Forall (exact_at reg) ch -> nodupb (map tname ch) = true -> forallb wf_tree ch = true ->
+  built reg ch sub f -> check_dev (SObj ch f) = false ->
+  exists path l v, leaf_at ch path = Some l /\ ldev l = true /\ value_at (SObj ch f) path = Some v /\
+                   jv_eqb v (ldefault l) = false.
+Proof.
+  intros reg ch sub f IH ND WF [B Hn] C.
+  cbn [check_dev] in C. destruct (forallb_false_ex _ _ C) as ([k s1] & Hin & Hbad).
+  destruct (built_in reg ch sub f k s1 B Hin) as (c1 & Hc1 & Hk & Hv).
+  pose proof (find_tree_nodup ch c1 ND Hc1) as F. rewrite Hk in F.
+  destruct (built_find reg ch sub f k c1 B F) as (s & Hv' & Hg & _ & _).
+  rewrite Hv in Hv'. inversion Hv'; subst s. clear Hv'.
+  pose proof (forallb_In _ _ _ WF Hc1) as WF1.
+  destruct s1 as [x|gov1 f1].
+  - (* a leaf value *)
+    rewrite F in Hbad. destruct c1 as [l|n d c o vs ch1].
+    + apply negb_false_iff, andb_true_iff in Hbad as [D1 D2]. apply negb_true_iff in D2.
+      exists [k], l, x. cbn [leaf_at value_at]. rewrite F, Hg. repeat split; auto.
+    + (* a node whose value is a leaf: only an optional node given None — excluded by wf_tree *)
+      cbn in WF1. apply andb_prop in WF1 as [WF1 _]. apply andb_prop in WF1 as [WF1 _]. apply negb_true_iff in WF1. subst o.
+      exfalso. exact (vfield_node_not_leaf reg n d c vs ch1 sub x Hv).
+  - (* a nested object *)
+    destruct c1 as [l|n d c o vs ch1].
+    + cbn in Hv. destruct (validate_leaf l sub); discriminate.
+    + rewrite Forall_forall in IH. specialize (IH _ Hc1 sub gov1 f1 Hn WF1 Hv Hbad).
+      destruct IH as (path & l & v & L & D & V & E).
+      destruct (vfield_node_no_inst reg n d c o vs ch1 sub gov1 f1 Hn Hv) as [-> _].
+      exists (k :: path), l, v. cbn [leaf_at value_at]. rewrite F, Hg.
+      destruct path as [|k2 rest]; [cbn in L; discriminate|]. repeat split; auto.
+Qed.
+
+Lemma exact_all : forall reg t, exact_at reg t.
+Proof.
+  intros reg. induction t as [l|n d c o vs ch IH] using stree_ind2; intros sub gov f Hn WF H C.
+  - cbn in H. destruct (validate_leaf l sub); discriminate.
+  - destruct (vfield_node_no_inst reg n d c o vs ch sub gov f Hn H) as [-> [sub' B]].
+    cbn in WF. apply andb_prop in WF as [WF W2]. apply andb_prop in WF as [_ W1].
+    exact (check_dev_false_children reg ch sub' f IH W1 W2 B C).
+Qed.
+
+Lemma lock_exact_l : forall reg n d c o vs ch kvs,
+  wf_children ch = true -> no_inst_kvs kvs = true ->
+  vtop reg (Node n d c o vs ch) kvs = Reject RDeveloper ->
+  exists f path l v, vfields reg ch (norm_kvs kvs) = Some f /\
+    leaf_at ch path = Some l /\ ldev l = true /\ value_at (SObj ch f) path = Some v /\ jv_eqb v (ldefault l) = false.
+Proof.
+  intros reg n d c o vs ch kvs WF Hn H. cbn [vtop] in H.
+  destruct (vfields reg ch (norm_kvs kvs)) as [f|] eqn:A; [|discriminate].
+  destruct (first_fail vs ch f) as [r|] eqn:FF; [|discriminate]. inversion H; subst r.
+  pose proof (first_fail_developer vs ch f FF) as C.
+  unfold wf_children in WF. apply andb_prop in WF as [W1 W2].
+  assert (IH : Forall (exact_at reg) ch) by (apply Forall_forall; intros; apply exact_all).
+  destruct (check_dev_false_children reg ch (norm_kvs kvs) f IH W1 W2 (conj A (no_inst_norm_kvs kvs Hn)) C)
+    as (path & l & v & L & D & V & E).
+  exists f, path, l, v. repeat split; auto.
+Qed.
+
+(* contrapositive, the shape the property text uses: a document that leaves every developer leaf at its default is
+   never refused by the lock (whatever it does to the open fields) *)
+Lemma nondev_not_locked_l : forall reg n d c o vs ch kvs f,
+  wf_children ch = true -> no_inst_kvs kvs = true ->
+  vfields reg ch (norm_kvs kvs) = Some f ->
+  (forall path l v, leaf_at ch path = Some l -> ldev l = true -> value_at (SObj ch f) path = Some v ->
+                    jv_eqb v (ldefault l) = true) ->
+  vtop reg (Node n d c o vs ch) kvs <> Reject RDeveloper.
+Proof.
+  intros reg n d c o vs ch kvs f WF Hn A All H.
+  destruct (lock_exact_l reg n d c o vs ch kvs WF Hn H) as (f' & path & l & v & A' & L & D & V & E).
+  rewrite A in A'. inversion A'; subst f'. rewrite (All path l v L D V) in E. discriminate.
+Qed.
